@@ -48,7 +48,7 @@ type ExecResult struct {
 	Created    *Address
 	// SelfDestructed lists the accounts scheduled for deletion (created and destroyed in this
 	// execution, EIP-6780).
-	SelfDestructed []Address
+	SelfDestructed   []Address
 	MissingBlockhash bool
 }
 
